@@ -383,6 +383,11 @@ class Histogram1D(ObjectWithBinning, HistogramBase):
         if np.isscalar(value) and np.isnan(value):
             return None  # Not an observation (as in fill_n and in the constructors)
         self._coerce_dtype(type(weight))
+        # Squares (weight**2, value**2) must not wrap around in a narrow integer type
+        if isinstance(weight, np.integer):
+            weight = int(weight)
+        if isinstance(value, np.integer):
+            value = int(value)
         if self._binning.is_adaptive():
             bin_map = self._binning.force_bin_existence(value)
             self._reshape_data(self._binning.bin_count, bin_map)
